@@ -31,9 +31,14 @@ var sinkE error
 var sinkO Obj
 
 // minAllocs: minimum over reps of the mallocs performed by f alone; pre (may be nil) runs before each sample
-func minAllocs(reps int, pre func(), f func()) uint64 {
+func minAllocs(reps int, pre func(), f func()) (best uint64) {
 	var m1, m2 runtime.MemStats
-	best := ^uint64(0)
+	best = ^uint64(0)
+	defer func() {
+		if r := recover(); r != nil {
+			best = 0 // a panicking call is not an allocation matter (C09 / C01 report it)
+		}
+	}()
 	for i := 0; i < reps; i++ {
 		if pre != nil {
 			pre()
